@@ -48,6 +48,7 @@ type rewriteOpts struct {
 	dropZero       bool // tolerance (ii): scalar zero values of optional / required+(readOnly|default|non-nullable) properties
 	dropZeroAll    bool // C05 normaliser: optional zero values of any kind (incl. empty containers, null)
 	strict         bool // --strict-additional-properties: (i) is off where additionalProperties is false
+	nullArrays     bool // C05: "an absent array may be rendered as null": a null under an array schema is dropped
 }
 
 // declaredProps returns the properties declared by s (through allOf and $ref) and its additionalProperties.
@@ -105,16 +106,22 @@ func rewriteDoc(s J, root J, doc interface{}, o rewriteOpts) interface{} {
 				if _, ok := ps["default"]; ok {
 					hasDefault = true
 				}
+				if o.nullArrays && v == nil && psr["type"] == "array" {
+					continue
+				}
 				ro := psr["readOnly"] == true || ps["readOnly"] == true
 				nn := ps["x-nullable"] == false || psr["x-nullable"] == false
 				canDrop := !required[k] || ro || hasDefault || nn
 				if o.dropZero && canDrop && isScalarZero(v) {
 					continue
 				}
-				if o.dropZeroAll && !required[k] && isZeroJSON(v) {
+				// bottom-up: a value that becomes empty once its own optional zero members are gone is
+				// itself a zero value
+				nv := rewriteDoc(ps, root, v, o)
+				if o.dropZeroAll && !required[k] && (isZeroJSON(v) || isZeroJSON(nv)) {
 					continue
 				}
-				out[k] = rewriteDoc(ps, root, v, o)
+				out[k] = nv
 			case addl != nil:
 				out[k] = rewriteDoc(addl, root, v, o)
 			case addlAllowed:
@@ -261,7 +268,21 @@ func runModels(prop, tier, replay string) int {
 			fmt.Fprintln(os.Stderr, "HARNESS:", err)
 			return 2
 		}
-		evalModels(r, prop, run, defs, func(d DefCase) []interface{} { return []interface{}{normalizeJSON(rep.Case.Doc)} }, false)
+		docs := []interface{}{normalizeJSON(rep.Case.Doc)}
+		if rep.Case.Def.Exact {
+			// number literals matter: take the documents of the family member with this description
+			for _, sp := range SpecialDefs() {
+				if sp.Def.Desc == rep.Case.Def.Desc {
+					want := string(mustJSON(normalizeJSON(rep.Case.Doc)))
+					for _, d := range sp.Docs {
+						if string(mustJSON(normalizeJSON(decodeNumber(mustJSON(d))))) == want {
+							docs = []interface{}{d}
+						}
+					}
+				}
+			}
+		}
+		evalModels(r, prop, run, defs, func(d DefCase) []interface{} { return docs }, false)
 		return r.Finish()
 	}
 
@@ -290,6 +311,33 @@ func runModels(prop, tier, replay string) int {
 		r.HarnessError("%s", e)
 	}
 	evalModels(r, prop, run, defs, Instances, false)
+
+	if prop == "C05" {
+		// the shapes grammar G does not produce: tuples, polymorphic hierarchies through the base type,
+		// allOf members that are maps, property names that are not Go identifiers
+		sp := SpecialDefs()
+		var sdefs []DefCase
+		for _, x := range sp {
+			sdefs = append(sdefs, x.Def)
+		}
+		s3 := NewScratch(prop + "x")
+		defer s3.Close()
+		run3, err := BuildModels(s3, sdefs, 12)
+		if err != nil {
+			r.HarnessError("special family: %v", err)
+		} else {
+			r.Extra["special_definitions"] = len(sdefs)
+			r.Count("special_definitions_dropped(generation or compile failure; reported by C01)", len(run3.Dropped))
+			for name, why := range run3.Dropped {
+				for _, x := range sp {
+					if x.Def.Name == name {
+						r.Note("special dropped %s: %s", x.Def.Desc, why)
+					}
+				}
+			}
+			evalModels(r, prop, run3, sdefs, specialDocsOf(sp), false)
+		}
+	}
 
 	if prop == "C02" {
 		// strict mode: additionalProperties:false must reject undeclared keys
@@ -414,6 +462,36 @@ func evalModels(r *evid.Run, prop string, run *ModelRun, defs []DefCase, inst fu
 			return
 		}
 		// ---- C05
+		if m.d.Exact {
+			// special family: hand-enumerated valid documents without zero-valued optionals or undeclared
+			// keys; the round trip must reproduce the document exactly (numbers digit by digit)
+			outcome := "exact-roundtrip"
+			xviol := func(kind, what string) {
+				outcome = kind
+				r.Violate(evid.Violation{Signature: fmt.Sprintf("%s | %s | %s | %s", kind, m.d.Chain, m.d.Desc, specialDocTag(m.doc)),
+					What: fmt.Sprintf("%s: definition %s, document %s -> %s", what, m.d.Desc, mustJSON(m.doc), string(res.Out)), Case: cs,
+					Observed: map[string]interface{}{"out": json.RawMessage(res.Out), "out2": json.RawMessage(res.Out2), "unmarshal_err": res.UnmarshalErr, "marshal_err": res.MarshalErr}})
+			}
+			switch {
+			case !ref:
+				r.HarnessError("special-family document is not valid for its schema: %s %s: %s", m.d.Desc, mustJSON(m.doc), validationErrors(m.d.Schema, root, m.doc))
+				return
+			case res.UnmarshalErr != "":
+				xviol("decode-fails", "a document valid for the schema cannot be decoded ("+res.UnmarshalErr+")")
+			case res.MarshalErr != "":
+				xviol("marshal-error", "encoding fails: "+res.MarshalErr)
+			default:
+				if eq, diff := exactJSONEqual(mustJSON(m.doc), res.Out); !eq {
+					xviol("lossy", "decode+encode changes the document at "+diff)
+				} else if string(res.Out) != string(res.Out2) {
+					xviol("not-idempotent", "encoding the re-decoded output gives different bytes: "+string(res.Out2))
+				} else if res.ValidateErr != "" {
+					outcome = "exact-roundtrip(Validate rejects: C02's domain)"
+				}
+			}
+			r.CaseKeyed(key, sample, true, outcome)
+			return
+		}
 		if !ref || !gen {
 			return // round trip is demanded for documents valid for the schema (and decodable)
 		}
@@ -429,9 +507,9 @@ func evalModels(r *evid.Run, prop string, run *ModelRun, defs []DefCase, inst fu
 		} else {
 			var out interface{}
 			_ = json.Unmarshal(res.Out, &out)
-			no := rewriteDoc(m.d.Schema, root, out, rewriteOpts{dropUndeclared: true, dropZeroAll: true})
-			nd := rewriteDoc(m.d.Schema, root, m.doc, rewriteOpts{dropUndeclared: true, dropZeroAll: true})
-			no, nd = nullArraysAbsent(no), nullArraysAbsent(nd)
+			// null arrays first (an absent array may be rendered as null), then the schema-directed rewrite
+			no := rewriteDoc(m.d.Schema, root, out, rewriteOpts{dropUndeclared: true, dropZeroAll: true, nullArrays: true})
+			nd := rewriteDoc(m.d.Schema, root, m.doc, rewriteOpts{dropUndeclared: true, dropZeroAll: true, nullArrays: true})
 			// a date-time value is an instant: compare instants, not spellings
 			no, nd = canonInstants(m.d.Schema, root, no), canonInstants(m.d.Schema, root, nd)
 			switch {
